@@ -3,6 +3,8 @@ package drivers
 import (
 	"encoding/json"
 	"io"
+	"reflect"
+	"sync/atomic"
 	"runtime"
 	"strings"
 	"sync"
@@ -31,7 +33,71 @@ type cnStep struct {
 type cnCase struct {
 	Sched []string `json:"sched"`
 }
+type cnEvent struct {
+	Ev   string `json:"ev"`
+	Seq  int64  `json:"seq"`
+	K    string `json:"k"`
+	How  string `json:"how"`
+	Gone bool   `json:"gone"`
+}
+
+// evlog is the merged log of what the test does to a connection (logged before the action)
+// and of the library's internal events (verif hook, logged at the state change).
+type evlog struct {
+	mu  sync.Mutex
+	evs []cnEvent
+}
+
+func (e *evlog) add(ev cnEvent) {
+	e.mu.Lock()
+	ev.Seq = memnet.Seq()
+	e.evs = append(e.evs, ev)
+	e.mu.Unlock()
+}
+
+var curLog atomic.Value // *evlog of the scenario being run (scenarios run sequentially)
+
+// logs by transport: an internal event belongs to the scenario whose in-memory transport the
+// connection object wraps (a goroutine left over from an earlier scenario must not write into
+// the current log)
+var logsByConn sync.Map // uintptr (address of the memnet.Conn) -> *evlog
+
+func transportOf(obj interface{}) uintptr {
+	v := reflect.ValueOf(obj)
+	if v.Kind() == reflect.Ptr {
+		v = v.Elem()
+	}
+	if v.Kind() != reflect.Struct {
+		return 0
+	}
+	f := v.FieldByName("rwc") // *conn
+	if !f.IsValid() {
+		f = v.FieldByName("r") // *liveSwitchReader, before the switch: still the raw transport
+	}
+	if f.IsValid() && f.Kind() == reflect.Interface && !f.IsNil() {
+		return f.Elem().Pointer()
+	}
+	return 0
+}
+
+func installHook() {
+	diam.SetVerifHook(func(point string, obj interface{}, args ...interface{}) {
+		li, ok := logsByConn.Load(transportOf(obj))
+		if !ok {
+			return
+		}
+		l := li.(*evlog)
+		ev := cnEvent{Ev: point}
+		if point == "cn.create" && len(args) > 0 {
+			ev.Gone, _ = args[0].(bool)
+		}
+		l.add(ev)
+	})
+}
+
 type cnLine struct {
+	Events     []cnEvent `json:"events"`
+	Conform    bool      `json:"conform"`
 	Ev         string   `json:"ev"`
 	ID         int      `json:"id"`
 	Via        string   `json:"via"`
@@ -93,9 +159,19 @@ func cnBad() []byte {
 }
 
 func runCN(id int, c *cnCase, via string) cnLine {
-	l := cnLine{Ev: "cn", ID: id, Via: via, Sched: c.Sched, Steps: []cnStep{}, InOrder: true}
+	l := cnLine{Ev: "cn", ID: id, Via: via, Sched: c.Sched, Steps: []cnStep{}, InOrder: true, Events: []cnEvent{}, Conform: true}
+	lg := &evlog{}
+	curLog.Store(lg)
+	defer curLog.Store((*evlog)(nil))
+	for _, ev := range c.Sched {
+		if ev == "mm" || ev == "m1" || ev == "m2" || ev == "xbig" {
+			l.Conform = false // the model's chunks are whole messages
+		}
+	}
 	base, _ := diamGoroutines()
 	mc := memnet.NewConn()
+	logsByConn.Store(reflect.ValueOf(mc).Pointer(), lg)
+	defer logsByConn.Delete(reflect.ValueOf(mc).Pointer())
 	var mu sync.Mutex
 	var chans []<-chan struct{}
 	var delivered []uint32
@@ -125,6 +201,7 @@ func runCN(id int, c *cnCase, via string) cnLine {
 		delivered = append(delivered, m.Header.HopByHopID)
 		mu.Unlock()
 		if m.Header.EndToEndID&0xC0000000 == 0xC0000000 {
+			lg.add(cnEvent{Ev: "cnreq"})
 			ch := dc.(diam.CloseNotifier).CloseNotify()
 			mu.Lock()
 			chans = append(chans, ch)
@@ -173,6 +250,7 @@ func runCN(id int, c *cnCase, via string) cnLine {
 		if dc == nil {
 			return
 		}
+		lg.add(cnEvent{Ev: "cnreq"})
 		ch := dc.(diam.CloseNotifier).CloseNotify()
 		mu.Lock()
 		chans = append(chans, ch)
@@ -184,6 +262,7 @@ func runCN(id int, c *cnCase, via string) cnLine {
 		case "m", "mh":
 			if !term {
 				nextID++
+				lg.add(cnEvent{Ev: "feed", K: "m"})
 				mc.Feed(cnGood(nextID, ev == "mh"))
 				wantDel++
 				waitDelivered(wantDel)
@@ -223,11 +302,14 @@ func runCN(id int, c *cnCase, via string) cnLine {
 			}
 			request()
 		case "x":
+			lg.add(cnEvent{Ev: "feed", K: "x"})
 			mc.Feed(cnBad())
 			mc.WaitClosed(3 * time.Second)
 			term = true
 		case "xt":
+			lg.add(cnEvent{Ev: "feed", K: "x"})
 			mc.Feed(cnBad())
+			lg.add(cnEvent{Ev: "feed", K: "m"})
 			mc.Feed(cnGood(nextID+1, false)) // trailing data in a separate fragment, must never be delivered
 			mc.WaitClosed(3 * time.Second)
 			term = true
@@ -241,10 +323,12 @@ func runCN(id int, c *cnCase, via string) cnLine {
 			mc.WaitClosed(3 * time.Second)
 			term = true
 		case "eof":
+			lg.add(cnEvent{Ev: "end", How: "eof"})
 			mc.FeedErr(io.EOF)
 			mc.WaitClosed(3 * time.Second)
 			term = true
 		case "rerr":
+			lg.add(cnEvent{Ev: "end", How: "err"})
 			mc.FeedErr(&memnet.NetErr{Msg: "scripted read error"})
 			mc.WaitClosed(3 * time.Second)
 			term = true
@@ -252,6 +336,7 @@ func runCN(id int, c *cnCase, via string) cnLine {
 			mu.Lock()
 			dc := dconn
 			mu.Unlock()
+			lg.add(cnEvent{Ev: "lclose"})
 			if dc != nil {
 				dc.Close()
 			} else {
@@ -306,6 +391,9 @@ func runCN(id int, c *cnCase, via string) cnLine {
 	if l.Goroutines < 0 {
 		l.Goroutines = 0
 	}
+	lg.mu.Lock()
+	l.Events = append(l.Events, lg.evs...)
+	lg.mu.Unlock()
 	if l.Goroutines == 0 {
 		l.Dump = ""
 	}
@@ -400,6 +488,7 @@ func CloseNotify(a Args) error {
 		return err
 	}
 	defer out.Close()
+	installHook()
 	id := 0
 	// goroutine dumps are process-wide: scenarios run sequentially inside this process
 	err = ReadLines(a.Cases, func(line []byte) error {
